@@ -153,13 +153,24 @@ def field_tables(run, F, E):
                 on_f = [ir.const_val(n.e['args'][0]) for n in w1 if c.dominates(f, n)]
                 okb = on_t == [1] and on_f == [0]
             run.ob('C12.a', 'Manual save writes 1 iff isActive()', okb, where=fn.pat, key='manual save() encodes the activity bit wrongly')
-        # the buffer is cleared before the first write: the stream is constructed from the buffer parameter first
+        # every save path passes through a whole-buffer clear before the first write: either the write stream's constructor clears the
+        # buffer it is given (today), or save() clears its buffer argument itself
         c = cfgmod.cfg_of(fn)
         ctors = c.events(('ctor',), lambda n: 'BitWriteStreamT' in (n.e.get('cls') or ''))
         writes = [n for n in c.events(('call',)) if n.e.get('m') in ('write', 'save')]
-        okc = len(ctors) == 1 and all(c.dominates(ctors[0], w) for w in writes) and \
-            ir.strip(ctors[0].e['args'][0]).get('k') == 'var' and ir.strip(ctors[0].e['args'][0]).get('pi') == 0
-        run.ob('C12.a', 'save builds the (buffer-clearing) write stream on its buffer argument before any write', okc, where=fn.pat,
+        on_param = len(ctors) == 1 and ir.strip(ctors[0].e['args'][0]).get('k') == 'var' and ir.strip(ctors[0].e['args'][0]).get('pi') == 0
+        ctor_clears = False
+        if len(ctors) == 1:
+            g = F.fn(ctors[0].e['fn']) if ctors[0].e.get('fn') is not None else None
+            if g is not None:
+                ctor_clears = any(e.get('m') == 'clear' and ir.is_expr(e.get('obj')) and ir.pp(ir.strip(e['obj'])) == '_buffer' for e, _ in E.call_sites(g))
+        explicit = [n for n in c.events(('call',)) if n.e.get('m') == 'clear' and ir.is_expr(n.e.get('obj')) and
+                    ir.strip(n.e['obj']).get('k') == 'var' and ir.strip(n.e['obj']).get('pi') == 0]
+        okc = on_param and all(c.dominates(ctors[0], w) for w in writes) and \
+            (ctor_clears or any(all(c.dominates(x, w) for w in writes) and c.postdominates(x, c.entry) for x in explicit))
+        run.ob('C12.a', 'save writes through a stream on its buffer argument, and a whole-buffer clear precedes the first write on every path '
+               '(equal states give equal buffers)', okc, where=fn.pat, detail=None if okc else {'stream on the buffer argument': on_param,
+                                                                                                'stream constructor clears': ctor_clears, 'explicit clears': len(explicit)},
                key='save() can write into a buffer that was not cleared')
         # load: the T edge of the activity bit reads the index into registry.requested
         lf = loads[0]
@@ -199,11 +210,6 @@ def field_tables(run, F, E):
                 n = None
             run.ob('C12.a', 'the active index is read with exactly WIDTH_BITS (%s) bits' % wb, n == wb, where=fn.pat, detail={'read<N>': ft},
                    key='the active index is not read WIDTH_BITS wide')
-    for fn in F.find('BitWriteStreamT'):
-        if fn.kind == 'ctor' and not fn.d.get('implicit') and fn.params:
-            calls = [(e.get('m'), ir.pp(ir.strip(e['obj'])) if ir.is_expr(e.get('obj')) else '') for e, g in E.call_sites(fn)]
-            run.ob('C12.a', 'the write stream clears the whole buffer when it is constructed (equal states give equal buffers)',
-                   ('clear', '_buffer') in calls, where=fn.pat, detail=calls, key='save() does not start from a cleared buffer')
     for fn in F.find('StreamBufferT', 'clear'):
         ws = E.writes_star(fn)
         run.ob('C12.a', 'StreamBufferT::clear zeroes the whole byte array', ws == {('this', '_data', '*')}, where=fn.pat, detail=sorted(ws),
